@@ -23,19 +23,10 @@ type layout struct {
 	misses   int
 }
 
-func keyOf[T comparable](v reflect.Value) T {
-	var z T
-	switch any(z).(type) {
-	case int:
-		return any(int(v.Int())).(T)
-	case string:
-		return any(v.String()).(T)
-	}
-	panic("c03: unsupported element type")
-}
-
-// inspect never mutates the set: Has on a key that is present in the read map
-// takes the lock-free path and records no miss.
+// inspect never touches the set through its API and works for every element type: a read-map entry that
+// holds a pointer is live, unless a dirty map exists and does not contain that very entry — then it is the
+// expunged marker (expunged entries exist only while there is a dirty map, and the dirty map holds exactly
+// the read map's non-expunged entries plus the new keys).
 func inspect[T comparable](s *sync2.Set[T]) (l layout) {
 	defer func() {
 		if recover() != nil {
@@ -43,6 +34,16 @@ func inspect[T comparable](s *sync2.Set[T]) (l layout) {
 		}
 	}()
 	m := reflect.ValueOf(s).Elem().FieldByName("m")
+	d := m.FieldByName("dirty")
+	l.dirty = !d.IsNil()
+	l.dirtyLen = d.Len()
+	inDirty := map[uintptr]bool{}
+	if l.dirty {
+		it := d.MapRange()
+		for it.Next() {
+			inDirty[it.Value().Pointer()] = true
+		}
+	}
 	av := (*atomic.Value)(unsafe.Pointer(m.FieldByName("read").UnsafeAddr()))
 	if ro := av.Load(); ro != nil {
 		rv := reflect.ValueOf(ro)
@@ -53,16 +54,13 @@ func inspect[T comparable](s *sync2.Set[T]) (l layout) {
 			switch {
 			case p == 0:
 				l.readNil++
-			case s.Has(keyOf[T](it.Key())):
-				l.readLive++
-			default:
+			case l.dirty && !inDirty[it.Value().Pointer()]:
 				l.readExp++
+			default:
+				l.readLive++
 			}
 		}
 	}
-	d := m.FieldByName("dirty")
-	l.dirty = !d.IsNil()
-	l.dirtyLen = d.Len()
 	l.misses = int(m.FieldByName("misses").Int())
 	l.ok = true
 	return l
